@@ -17,7 +17,7 @@ from ..target import REPO, InfraError
 
 ID = "C19"
 LEVEL = "fault_enumeration"
-TECHNIQUE = "crash-state enumeration: the cache write history is recorded from the real code with strace; every operation prefix x every byte cut of every write, every truncation of the complete cache, and the unreadable-content states are materialised and the real module-level import code is run on each, twice"
+TECHNIQUE = "crash-state enumeration: the cache write history is recorded from the real code with strace; every operation prefix x every byte cut of every write, every truncation of the complete cache, and the unreadable-content states are materialised and the real module-level import code is run on each, twice; plus exhaustive enumeration, within a preemption bound, of the interleavings of two real first imports at file-operation granularity under a baton scheduler, and of single write faults (short write / ENOSPC at every write) during the recovery"
 RULE = ("one evaluation = one on-disk state of the package's data directory + a first and a second import of the real "
         "timezone_parser module code over it; states = {missing, empty, every listed prefix length of the complete cache, every "
         "operation boundary and listed byte cut of the recorded write history (with leftover temp files), zero-filled tails, "
